@@ -25,6 +25,10 @@ claimed = {
          "parked-writer schedules from TLC replayed through every read entry point", "5"),
  "C10": (MC, "TLC evaluates the grammar predicate of spec/FoxPattern.tla (written on the character sequence, not as the parser's state machine) on every string over {/ a . { } * - 1} up to a bounded length under three parameter-limit configurations and checks the routability theorem for every accepted pattern; the real registration must accept exactly the listed strings (Handle, NewRoute, Delete agree, never a panic) and route every instantiation with the prescribed parameters. Long random patterns around the 63/255 limits are recorded from the real code and validated by TLC (Obs_Pattern); arbitrary bytes for crash-freedom.",
          "TLC-enumerated grammar verdicts and instantiations replayed on the real router; recorded verdicts validated by TLC", "5"),
+ "C13": (MC, "TLC enumerates every configuration of global middleware (scope masks, DefaultOptions) x route lists x replacement lists, checks the each-once and route-specific-inside theorems of spec/FoxMiddleware.tla and prescribes the chain of each handler kind; identity-tracing middleware on the real router must be entered and left in exactly that order for the five kinds, after Update, through Route.Handle/HandleMiddleware, and for routes created concurrently (harness built with -race; a race report is a violation).",
+         "TLC-enumerated middleware configurations replayed with tracing middleware; concurrent NewRoute under the race detector", "5"),
+ "C14": (MC, "TLC explores every call sequence up to a bound on the recorder model (WriteHeader incl. informational/101/repeated, Write/WriteString fully/partially/not accepted, ReadFrom with failing source or destination, Flush, Hijack, capability calls, String/Blob/Stream/Redirect) for four capability sets of the underlying writer and checks AtMostOneFinal, StatusIsFirstFinal, SizeIsAccepted, WrittenIff, NoHeaderAfterBody; every edge is replayed on the real recorder over purpose-built underlying writers that log what they receive and fail on demand.",
+         "TLC state graph of the response recorder replayed over fault-injecting underlying writers", "5"),
  "C17": (MC, "TLC checks idempotence, canonicity, fixed point and the trailing-slash rule of the reference Clean on every string over {/ . a % rune} up to a bounded length and emits (input, canonical form) pairs compared with fox.CleanPath; long random inputs crossing the 128-byte buffer are recorded from the real code and validated by TLC (Obs_Clean).",
          "TLC-enumerated CleanPath vectors replayed; recorded outputs validated by TLC", "5"),
  "C11": (MC, "TLC exhausts FoxServe!Reply over tables on several methods x the four option combinations x per-route trailing-slash options x requests (incl. OPTIONS *); status, handler kind, Allow (as a set) and the context of special handlers are compared through ServeHTTP.",
